@@ -202,7 +202,11 @@ func c10Scenarios(tier string) []Scenario {
 		}
 	}
 	for _, lateC := range []bool{false, true} {
-		out = append(out, c10Scenario(c10Params{Calls: two, Fault: "unmount", Late: lateC, Dotu: lateC, P: D + 1}))
+		ud := D + 1
+		if !lateC {
+			ud = D + 2 // the writer-vs-recycled-request crash needed three deviations
+		}
+		out = append(out, c10Scenario(c10Params{Calls: two, Fault: "unmount", Late: lateC, Dotu: lateC, P: ud}))
 		out = append(out, c10Scenario(c10Params{Calls: three, Fault: "peerclose", Late: lateC, P: D + 1}))
 		out = append(out, c10Scenario(c10Params{Calls: nil, Fault: "cut", At: 0, Late: lateC, P: D + 2}))
 		out = append(out, c10Scenario(c10Params{Calls: three[:1], Fault: "cut", At: 0, Late: lateC, Dotu: true, P: D + 2}))
